@@ -18,15 +18,15 @@ func init() {
 		ID: "C14", Level: "exploration", Primary: "control_shapes", EvalCount: "controls_checked",
 		Rule: "control values are built through gldap's exported types/constructors: paging sizes over {0,1,127,128,2^31-1,2^31,2^32-1}+random with cookies of 0..70000 arbitrary bytes; Behera grace/expire over " +
 			"0..2^31-1 and error 0..8 (all 2^3 option subsets, error codes up to 300 must be rejected); VChu warning over int64 boundaries; ManageDsaIT both criticalities; the three Microsoft controls; VChu must-change; " +
-			"generic ControlString with OIDs other than the typed ones (incl. near misses), both criticalities, empty/binary/long values; 1..6 controls per message in random order. Request direction: Encode() output is attached " +
+			"generic ControlString with OIDs other than the typed ones (incl. near misses), both criticalities, empty/binary/long values; 1..6 controls per message in random order; control instances are also re-used: encoded, their exported fields changed, and encoded again (directly and on consecutive responses). Request direction: Encode() output is attached " +
 			"to Bind/Search/Modify/Add/Delete requests and compared with what the handler's Controls list holds; the same bytes go through the strict parser and go-ldap's DecodeControl. Response direction: SetControls on Bind and " +
 			"SearchDone responses, observed by go-ldap's SimpleBind/Search and the strict parser on a wiretap copy. distinct_nontrivial = distinct (type, field-value classes, direction, neighbours) signatures",
 		Assume: []string{"go-ldap's DecodeControl is consulted only for shapes it can decode (it dereferences nil on value-less Behera/paging/VChu-warning controls and special-cases several OIDs); those shapes are judged by the strict parser alone",
 			"an empty generic control value and an absent one are the same value (gldap's ControlString cannot express the difference)"},
 		Phases: func(tier string, seed int64) []Phase {
-			return []Phase{{Name: "request-direction", Run: c14Request}, {Name: "response-direction", Run: c14Response}, {Name: "constructors", Run: c14Constructors}}
+			return []Phase{{Name: "request-direction", Run: c14Request}, {Name: "response-direction", Run: c14Response}, {Name: "constructors", Run: c14Constructors}, {Name: "instance-reuse", Run: c14Reuse}}
 		},
-		MinObserved: []string{"controls_checked", "request_direction_controls", "response_direction_controls", "goldap_decodes_compared"},
+		MinObserved: []string{"controls_checked", "request_direction_controls", "response_direction_controls", "goldap_decodes_compared", "reused_instance_encodings"},
 	})
 }
 
@@ -384,6 +384,123 @@ func c14Response(c *Ctx) {
 	}
 }
 
+// c14Reuse: a control VALUE is what its exported fields say at the time it is encoded. One instance is encoded,
+// its exported fields are changed directly (not only through setters), and it is encoded again - directly and on
+// consecutive responses (the way a paging handler keeps one control and advances its cookie).
+func c14Reuse(c *Ctx) {
+	r := c.Rng
+	check := func(kind string, s CtlSpec, enc []byte, how string) {
+		c.Count("controls_checked", 1)
+		c.Count("reused_instance_encodings", 1)
+		c.Distinct("control_shapes", "reuse/"+how+"/"+ctlSig(s))
+		node, err := sber.ParseAll(enc)
+		if err != nil {
+			c.Violate("encoded control is not well-formed BER", err.Error(), map[string]any{"control": s})
+			return
+		}
+		wire, err := sber.ParseControl(node)
+		if err != nil {
+			c.Violate("encoded control is not a well-formed LDAP control", err.Error(), map[string]any{"control": s})
+			return
+		}
+		if d := checkWireControl(s, wire); len(d) > 0 {
+			c.Violate("a re-used control instance encodes stale field values ("+kind+")", how+": "+strings.Join(d, "; "), map[string]any{"control_fields_now": s, "hex": hx(trunc(enc, 128))})
+		}
+	}
+	n := c.N(300, 10000)
+	// ---- direct Encode() on a mutated instance
+	for i := 0; i < n; i++ {
+		switch i % 4 {
+		case 0:
+			s := genGldapCtl(r, "paging")
+			g, _ := toGldap(s)
+			p := g.(*gldap.ControlPaging)
+			_ = p.Encode().Bytes()
+			if i%8 == 0 {
+				_ = p.String()
+			}
+			s2 := genGldapCtl(r, "paging")
+			p.PagingSize = uint32(s2.Size)
+			if r.Bool() {
+				p.Cookie = s2.Cookie
+			} else {
+				p.SetCookie(s2.Cookie)
+			}
+			check("paging", s2, p.Encode().Bytes(), "encode, assign fields, encode")
+		case 1:
+			s := genGldapCtl(r, "generic")
+			g, _ := toGldap(s)
+			p := g.(*gldap.ControlString)
+			_ = p.Encode().Bytes()
+			s2 := genGldapCtl(r, "generic")
+			p.ControlType, p.Criticality, p.ControlValue = s2.OID, s2.Crit, string(s2.Value)
+			check("generic", s2, p.Encode().Bytes(), "encode, assign fields, encode")
+		case 2:
+			s := genGldapCtl(r, "dsait")
+			g, _ := toGldap(s)
+			p := g.(*gldap.ControlManageDsaIT)
+			_ = p.Encode().Bytes()
+			p.Criticality = !p.Criticality
+			s.Crit = p.Criticality
+			s.HasCrit = s.Crit
+			check("dsait", s, p.Encode().Bytes(), "encode, assign fields, encode")
+		case 3:
+			s := genGldapCtl(r, "vchu-warn")
+			g, _ := toGldap(s)
+			p := g.(*gldap.ControlVChuPasswordWarning)
+			_ = p.Encode().Bytes()
+			s2 := genGldapCtl(r, "vchu-warn")
+			p.Expire = s2.Warn
+			check("vchu-warn", s2, p.Encode().Bytes(), "encode, assign fields, encode")
+		}
+	}
+	// ---- the same instance on consecutive responses, fields advanced between them
+	paging, _ := gldap.NewControlPaging(10)
+	generic, _ := gldap.NewControlString("9.8.7", gldap.WithControlValue("v0"))
+	var mu sync.Mutex
+	srv, err := startSrv(SrvCfg{}, func(m *gldap.Mux) {
+		m.Search(func(w *gldap.ResponseWriter, req *gldap.Request) {
+			mu.Lock()
+			defer mu.Unlock()
+			resp := req.NewSearchDoneResponse(gldap.WithResponseCode(0))
+			resp.SetControls(paging, generic)
+			w.Write(resp)
+		})
+	})
+	if err != nil {
+		c.Inconclusive("server start: " + err.Error())
+		return
+	}
+	defer srv.StopWithin(patience)
+	cl, err := dialRaw(srv.Addr, nil)
+	if err != nil {
+		c.Inconclusive("dial: " + err.Error())
+		return
+	}
+	defer cl.Close()
+	for page := 0; page < c.N(40, 1000); page++ {
+		sp := genGldapCtl(r, "paging")
+		sg := genGldapCtl(r, "generic")
+		mu.Lock()
+		paging.PagingSize = uint32(sp.Size)
+		paging.Cookie = sp.Cookie
+		generic.ControlType, generic.Criticality, generic.ControlValue = sg.OID, sg.Crit, string(sg.Value)
+		mu.Unlock()
+		cl.Send(sber.Message(int64(page+1), sber.Search{Base: []byte("dc=x"), Scope: 2, Filter: sber.PresentFilter("cn"), Attrs: [][]byte{}}.Node(), nil).Encode())
+		m, err := cl.ReadMsg(patience)
+		if err != nil {
+			c.Violate("response carrying controls is not a well-formed LDAPMessage", err.Error(), nil)
+			return
+		}
+		c.Count("controls_checked", 2)
+		c.Count("reused_instance_encodings", 2)
+		if d := checkWireControls([]CtlSpec{sp, sg}, m.Controls); len(d) > 0 {
+			c.Violate("a re-used control instance encodes stale field values (response)", fmt.Sprintf("response %d of a paged exchange re-using one control instance: %s", page+1, strings.Join(d, "; ")), map[string]any{"paging_now": sp, "generic_now": sg})
+			return
+		}
+	}
+}
+
 // c14Constructors: the Behera constructor never yields more than one of
 // grace/expire/error and rejects error codes above 8 (exhaustive option subsets).
 func c14Constructors(c *Ctx) {
@@ -439,6 +556,26 @@ func c14Constructors(c *Ctx) {
 						break
 					}
 				}
+			}
+		}
+	}
+	// error codes far beyond 8, up to the top of the option's uint domain
+	for _, code := range []uint{1 << 31, 1<<31 + 3, 1 << 32, 1<<32 + 8, 1 << 62, 1 << 63, 1<<63 + 5, ^uint(0) - 8, ^uint(0) - 1, ^uint(0), 255, 256, 257, 264, 65536, 65536 + 4} {
+		for _, with := range []string{"", "grace", "expire"} {
+			opts := []gldap.Option{gldap.WithErrorCode(code)}
+			switch with {
+			case "grace":
+				opts = append(opts, gldap.WithGraceAuthNsRemaining(3))
+			case "expire":
+				opts = append([]gldap.Option{gldap.WithSecondsBeforeExpiration(3)}, opts...)
+			}
+			b, err := gldap.NewControlBeheraPasswordPolicy(opts...)
+			c.Count("controls_checked", 1)
+			c.Count("behera_constructor_calls", 1)
+			c.Distinct("control_shapes", fmt.Sprintf("behera-ctor-huge/%d/%s/%v", code, with, err == nil))
+			if err == nil {
+				ec, _ := b.ErrorCode()
+				c.Violate("Behera constructor accepts an error code above 8", fmt.Sprintf("WithErrorCode(%d) (with %q) was accepted; the control reports error code %d, grace %d, expire %d", code, with, ec, b.Grace(), b.Expire()), map[string]any{"code": code, "with": with})
 			}
 		}
 	}
